@@ -291,6 +291,10 @@ impl<T> UnboundedReceiver<T> {
     pub fn poll_recv(&mut self, cx: &mut Context<'_>) -> (r: Poll<Option<T>>)
         ensures r == old(self).next_recv(),
     { unimplemented!() }
+    /// tokio UnboundedReceiver::close: no further sends are accepted; what is already queued can still be received
+    /// (nothing is said about what the next receive returns)
+    #[verifier::external_body]
+    pub fn close(&mut self) { unimplemented!() }
 }
 pub struct Pin { }
 impl Pin {
